@@ -282,22 +282,23 @@ def run(ctx):
         get_pool()
         cov["pool_startup_s"] = round(time.time() - t0, 1)
         t0 = time.time()
-        n = 6000 if ctx.quick else 150000
+        n = 6000 if ctx.quick else 100000
         st, fails = explore("table", "tables", n, ctx.seed)
         streams["tables"] = dict(tables=st["runs"], by_operation=st["top"], measured=st["tstats"], disagreements=len(fails),
                                  wall_s=round(time.time() - t0, 1))
         total += st["runs"]
         distinct += st["distinct"]
         samples += st["samples"][:1]
+        fails.sort(key=lambda f: 0 if f[1].startswith("law ") else 1)     # a failing input of a law first
         for case, what, detail in fails[:3]:
             is_law = what.startswith("law ")
-            ctx.violation(("the real gate violates %s" % what) if is_law else
+            ctx.violation(("the real gate violates the %s" % what.replace(" fails on the real gate", "")) if is_law else
                           ("gate model and real code disagree: %s" % what),
                           dict(kind="table", case=case, detail=detail), no_input=not is_law,
                           theorem=None if is_law else "correspondence SmartModel gate (changeset_filter / pre_sync / g_request / "
                                                       "g_unrequest / g_listdir) vs cloudsync/smartsync.py")
         # ---- Stream A (seeded, claimed-clean domain)
-        for fam, nq, nt in (("smart_drained", 1500, 30000), ("smart_interleaved", 3000, 70000)):
+        for fam, nq, nt in (("smart_drained", 1500, 25000), ("smart_interleaved", 3000, 60000)):
             n = nq if ctx.quick else nt
             t0 = time.time()
             st, fails = explore("engine", fam, n, ctx.seed)
